@@ -86,6 +86,16 @@ func runHistory(t *rapid.T, o historyOpts, st *propStats) {
 			}
 		}
 		op := anchoredBytes(typ, opBytes, suffix, m)
+		if rapid.IntRange(0, 4).Draw(t, "opAmongUnpublished") == 0 {
+			// the operation being applied may itself be listed among the state's unpublished operations (this is how a create
+			// result is computed before anchoring): the list is handed through as it is all the same
+			twin := *op
+			unpub = append([]*operation.AnchoredOperation{op, &twin}, unpub...)
+			unpub = append(unpub, &operation.AnchoredOperation{Type: "update", UniqueSuffix: fmt.Sprint("tail", s), TransactionTime: uint64(s)})
+			withList := *lib
+			withList.UnpublishedOperations = unpub
+			lib = &withList
+		}
 		var before, opSnap snapshot
 		if o.snapshots {
 			before = snap(fmt.Sprintf("resolution model before step %d", s), lib)
